@@ -13,14 +13,14 @@ CLAIMED = {
         note="Trusted: Python's Enum semantics (members are singletons; value tuples compare lexicographically), the small pure-expression evaluator in sa/minieval.py, and that comparisons are between Severity members only.",
     ),
     "C14": dict(
-        technique="cache-invalidation discipline: per-method CFG post-dominance of cache resets over every mutation site of the opcode list, whole-package single-writer scan, MutableSequence mix-in routing read from Lib/_collections_abc.py",
+        technique="cache-invalidation discipline: per-method CFG post-dominance of cache resets over every mutation site of the opcode list, whole-package single-writer scan, MutableSequence mix-in routing read from Lib/_collections_abc.py; ownership of the opcode list (stored value is a container the object created; the live list is never handed out)",
         level="Decides the whole property as an ownership/invalidations rule: every mutation of Pickled's opcode list is followed on all normal paths by a reset of every derived cache, nothing outside the class writes the list or the caches, the inherited MutableSequence mix-ins route through the three audited mutators, and every view is recomputed from the live list. Equality with a freshly constructed pickle follows from 'every view is recomputed from the current list'; in-place edits of an opcode object are outside the sequence interface.",
         note="Trusted: CPython's Lib/_collections_abc.py (parsed, its mix-ins checked to use only the abstract interface); attribute-name based identification of the caches (any attribute of Pickled assigned a non-None value outside __init__ counts as a cache).",
     ),
 }
 
 CLAIMED["C09"] = dict(
-    technique="abstract interpretation of all 61 opcode handlers over a symbolic stack/memo, compared row by row with pickletools' declared stack effects; structural rules for Stack, Interpreter.step and Trace",
+    technique="abstract interpretation of all 61 opcode handlers over a symbolic stack/memo, compared row by row with pickletools' declared stack effects; structural rules for Stack, Interpreter.step and Trace; effect rule: Interpreter.run / the untraced-only branch of to_ast change nothing besides stepping (Trace drives step() itself)",
     level="Exhaustive over the finite opcode set: each handler's (mark, pops, pushes, peeks, memo traffic) summary on every path equals the effect CPython's pickletools table declares, so stack depth, mark positions and memo keys agree with the real VM after every opcode of every program both accept; Trace is shown passive (one step and one report per opcode, no writes to interpreter or pickle state, returns the interpreter's own program). Symbolic contents of the stack are C05's business.",
     note="Trusted: pickletools.opcodes as the VM's specification; the mark convention (items listed before `mark` survive); the abstract interpreter sa/vm.py (an unrecognised idiom ends ANALYSIS-ERROR, never a verdict).",
 )
@@ -36,7 +36,7 @@ CLAIMED["C05"] = dict(
     note="Trusted: pickletools operand order, Lib/pickle.py value semantics frozen in the table, ast.<Node>.__doc__ ASDL signatures, sa/vm.py. Aliasing through new_variable rebinding (memo keeps the node, stack keeps the Name) is a known incompleteness.",
 )
 CLAIMED["C13"] = dict(
-    technique="effect analysis of observers (who writes which shared object), one-shot-iterator typing of AST fields, cache-atomicity via CFG, set-iteration lint on the decompile/analysis path, import-graph check of the analysis registry",
+    technique="effect analysis of observers (who writes which shared object), one-shot-iterator typing of AST fields, cache-atomicity via CFG, set-iteration lint on the decompile/analysis path, import-graph check of the analysis registry; reachability-based exclusion of process-wide setting changes (recursion limit, environment, cwd, filters) from every read-only query",
     level="Excludes structurally the known sources of non-determinism and observer effects: one-shot iterators in AST fields, writes by opcode handlers to the shared opcode objects, state kept on the singleton analyses or written into inspected nodes, Interpreter/Trace writing into the Pickled they observe, partially filled caches, ordered iteration over sets (hash-seed dependence), shared mutable defaults, import-order dependence of the registry. It does not prove equality of answers across processes as such.",
     note="Trusted: the enumeration of non-determinism sources is complete for this code base (no threads, no time, no randomness - see C17 for the file-format module); attribute-name based identification of shared objects.",
 )
@@ -48,13 +48,13 @@ CLAIMED["C02"] = dict(
 )
 
 CLAIMED["C12"] = dict(
-    technique="typestate / ownership analysis over the four hooked bindings: transitive write sets per lifecycle operation, provenance of each written value, post-dominance of restores in __exit__, single-owner scan",
+    technique="typestate / ownership analysis over the four hooked bindings: transitive write sets per lifecycle operation, provenance of each written value, post-dominance of restores in __exit__, single-owner scan; call-time lookup of the real loader on the pickle module object (no import-time bound alias)",
     level="Decides the restore discipline for every history: everything an arming operation may rebind is restored by remove_hook from import-time captures of the originals; the context manager snapshots on entry and restores on every exit path (normal or exceptional, never swallowing the exception) every binding that any lifecycle operation can change while it is open; each armed binding is a checker (C02/C07) and the checked loader's real load stays behind the safe-ML hook; nobody else rebinds the entry points. Whether a probe load of a flagged pickle is refused while armed is C02/C04/C07.",
     note="Trusted: pickle.load is _pickle.load in CPython (checked in Lib/pickle.py's source); the operation alphabet of the property (enter = `with fickling.check_safety():`).",
 )
 
 CLAIMED["C11"] = dict(
-    technique="points-to over two abstract locations per nested dict (copy-depth of each alias x write-depth of each store) plus an effect scan for writes to module globals, class attributes and shared defaults",
+    technique="points-to over two abstract locations per nested dict (copy-depth of each alias x write-depth of each store) plus an effect scan for writes to module globals, class attributes and shared defaults; inner-dict taint (storing one of the table's own inner dicts into a fresh outer copy makes that copy's inner level shared)",
     level="Decides the whole property as an ownership rule: nothing in the package can write the built-in ML_ALLOWLIST or its inner dicts (each alias is classified by the depth of the copy that made it and by its lifetime), no function of hook.py/ml.py accumulates additions in a module global, class attribute or default argument, and the hooks an activation installs are its own closures reading its own also_allow.",
     note="Trusted: the copy idioms table (dict(), .copy(), {**x}, deepcopy, dict-comprehension with copied values); name-based alias tracking within fickling/ (a reference smuggled through an unrelated container would not be seen).",
 )
@@ -71,7 +71,7 @@ CLAIMED["C01"] = dict(
 )
 
 CLAIMED["C19"] = dict(
-    technique="type discipline across sibling analyses: yield/return typing of every analyze(), kind inference for each AnalysisResult field by a local def-use walk, report-chain agreement, guardedness of node-attribute dereferences against the node classes the opcode handlers can emit",
+    technique="type discipline across sibling analyses: yield/return typing of every analyze(), kind inference for each AnalysisResult field by a local def-use walk, report-chain agreement, guardedness of node-attribute dereferences against the node classes the opcode handlers can emit; totality of computed-key lookups in literal tables (helper enumerated over two periods of its modular arithmetic)",
     level="Decides that every analysis produces AnalysisResult objects only, each with a Severity member, a string message and a JSON-serialisable trigger; that the report is built from severity.name, a string and detailed_results(); that the checked loader raises UnsafeFileError with the default report of the same result; and that `.id`/`.attr`/`.module`/`.names` dereferences on the analysis path are valid for every node kind fickling can emit. Exceptions that depend on operand values (e.g. a non-string STACK_GLOBAL module) are not decided.",
     note="Trusted: the kind-inference heuristics in sa/props/c19.py (unknown kinds are not flagged); E5 summaries for which node classes exist.",
 )
@@ -83,7 +83,7 @@ CLAIMED["C04"] = dict(
 )
 
 CLAIMED["C15"] = dict(
-    technique="type-lattice evaluation of the validator priority search vs pickletools' decoded kinds; constant folding of admitted integer ranges vs struct formats; writer/reader shape agreement of every encoder with the pickletools argument descriptor",
+    technique="type-lattice evaluation of the validator priority search vs pickletools' decoded kinds; constant folding of admitted integer ranges vs struct formats; writer/reader shape agreement of every encoder with the pickletools argument descriptor; interpretation of the UNICODE text encoder and of the inherited Opcode.encode_body over one representative per reader character class / per fixed-width descriptor; who-may-construct rule for classes with a defective encoder",
     level="Decides two agreement rules: for every input kind every constant class that can win ConstantOpcode.new decodes (per pickletools) to that kind, within a range its format can hold; and every registered opcode class writes the shape its descriptor reads back, or refuses. Genuine findings on this tree are recorded (bool is captured by the integer classes; five legacy encoders disagree with their descriptors). Per-value escaping and boundary correctness (raw_unicode_escape on non-ASCII, float round trip, nested containers beyond their leaves) is value-level and not decided.",
     note="Trusted: pickletools descriptors and stack_after kinds; the encoder pattern table in sa/props/c15.py (an unrecognised encoder ends ANALYSIS-ERROR).",
 )
@@ -101,7 +101,7 @@ CLAIMED["C06"] = dict(
 )
 
 CLAIMED["C08"] = dict(
-    technique="abstract interpretation of the injection helpers over an abstract opcode list [PROTO, FRAME, BODY, STOP] followed by a symbolic run of the produced opcode template on a VM with pickletools' stack effects, exhaustive over the helpers' flag space and several argument shapes",
+    technique="abstract interpretation of the injection helpers over an abstract opcode list [PROTO, FRAME, BODY, STOP] followed by a symbolic run of the produced opcode template on a VM with pickletools' stack effects, exhaustive over the helpers' flag space and several argument shapes, base protocol 0/4, memo sizes below/above the one-byte GET boundary and symbolic memo-derived keys",
     level="Template discipline (necessary, not sufficient): for every helper and flag combination the spliced opcodes perform exactly one REDUCE of the injected callable with exactly the given arguments, leave [obj] (keep modes) or [result] (replace modes) at the single trailing STOP, read only memo keys the template itself wrote (the MEMOIZE key being derived from a symbolic run of the base made before MEMOIZE is inserted), and the prefix block lands right after the PROTO/FRAME header. Not decided: that every effect of every base pickle still happens in order (memo-key collisions with sparse base keys, stale FRAME lengths, base pickles leaving garbage on the stack), and the safety verdict of the rewritten pickle beyond C04's table. One genuine finding recorded (append_python(pop_result=False)).",
     note="Trusted: sa/minieval.py interpreting the helpers' own source; pickletools stack effects of the dozen template opcodes; BODY as a stand-in for any base body that nets [] -> [obj].",
 )
